@@ -56,6 +56,7 @@ static void c03_state(const vr::ClassInfo * ci, Rng & r, const std::set<unsigned
     bool reuse = !dflt && r.chance(1, 6);
     MemFile mf;
     if (reuse) {   // object written once, containers changed, written again (length fields now stale from the first write)
+        if (const vr::Field * xo = ob.find("extDataOffset")) xo->set_u64(0);     // the ext-data offset of a CAN FD 64 object would be stale after resizing: caller resets it
         MemFile first; o->write(first);
         ol::GenOpts g2; g2.fixed_len = -1;
         for (auto & f : ob.f) if (f.variable() && ol::role(ob, f) != ol::R_NONSER && ol::active(ob, f)) {
@@ -382,10 +383,10 @@ static int run_c02(uint64_t seed, int from, int to, const char * path, int extra
             for (int k = 0; k < n; k++) { size_t off = 16 + r.below((uint32_t)(end - 16)); if (!isfield(off, 1)) continue; if (!k) first = off; mm[off] = r.chance(1, 2) ? bvals[r.below(5)] : (uint8_t)r.next(); }
             try_image(mm, "multi", first);
         }
-        char buf[300];
-        snprintf(buf, sizeof buf, "{\"images\":1,\"whole\":%d,\"skipped_nonfield_bytes\":%ld,\"mutated\":%ld,\"shape_preserving\":%ld,\"undecodable\":%ld,\"types\":[%u],\"samples\":[%s]}", whole ? 1 : 0, not_field, mutated, preserved, undecodable,
-                 im.type, (c % 64 == 0) ? hc::jstr(std::string(d0.ci->name) + " image " + std::to_string(c) + " " + vr::hex(im.b.data(), im.b.size(), 40)).c_str() : "");
-        hc::stat(buf);
+        std::ostringstream st;
+        st << "{\"images\":1,\"whole\":" << (whole ? 1 : 0) << ",\"skipped_nonfield_bytes\":" << not_field << ",\"mutated\":" << mutated << ",\"shape_preserving\":" << preserved << ",\"undecodable\":" << undecodable
+           << ",\"types\":[" << im.type << "],\"samples\":[" << ((c % 64 == 0) ? hc::jstr(std::string(d0.ci->name) + " image " + std::to_string(c) + " " + vr::hex(im.b.data(), im.b.size(), 40)) : std::string()) << "]}";
+        hc::stat(st.str());
         delete d0.o;
     }
     return 0;
